@@ -64,3 +64,11 @@ def preflight(mod, prop_id, check_for, announce=True):
 
 # ------------------------------------------------------------------------------------------------
 # classifiers (added as findings are confirmed)
+
+
+@classifier("k4_bare_streams_all_null")
+def k4(site, case, info):
+    """Config() given a bare stream-id mapping in which every test has null parameters: dict depth is 3, so the
+    mapping is taken for a bare module mapping and no call is produced."""
+    return (site == "Config" and info.get("layout") == "bare_streams" and info.get("all_kwargs_null") is True
+            and not str(info.get("carrier", "")).endswith("variable_attrs") and not info.get("raised"))
